@@ -416,8 +416,9 @@ def assumptions_cached():
     return ass
 
 
-def coq_step(rep):
-    """regenerate Gen/LaneCfgGen.v, build the extraction (models only) and the lane obligations"""
+def coq_step(rep, only=None):
+    """regenerate Gen/LaneCfgGen.v, build the extraction (models only) and the lane obligations
+    (only = the statements of Properties/C06_lanes.v to count; default all)"""
     err = None
     try:
         g = gen()
@@ -439,10 +440,10 @@ def coq_step(rep):
                    any(x in (broken or {}).get("file", "") for x in ("Extract/Lanes", "Model/"))):
         raise RuntimeError("lane model / extraction build failed: %s" % broken)
     gen_ok = os.path.exists(os.path.join(vlib.COQ, "Gen", "LaneCfgGen.vo")) and (ok or "LaneCfgGen" not in (broken or {}).get("file", "")) and not err
-    for n in ("gen_lane_cfgs_wf", "gen_lane_cfgs_pairs"):
+    for n in ("gen_lane_cfgs_wf", "gen_lane_cfgs_pairs") if only is None else ("gen_lane_cfgs_wf",):
         rep.obligation("Gen/LaneCfgGen.v:" + n, gen_ok, "" if gen_ok else (err or "regenerated lane configuration no longer satisfies Model/LaneMgr.v cfg_wf"))
     if have_props:
-        names = vlib.coq_obligations(PROPS)
+        names = [n for n in vlib.coq_obligations(PROPS) if only is None or n in only]
         if ok:
             ass = assumptions_cached()
             for n in names:
@@ -532,7 +533,21 @@ def lane_whitebox(rep, tier, k=606):
                        "failures": why[:6], "observed": oo[ii[0]][:3000],
                        "how_to_replay": "echo 'L x %s %s 20 %s' | <lanes driver>" % (c["algo"], c["fam"], " ".join(mc["ops"]))},
                       sig={"kind": "lane_trace", "algo": c["algo"], "family": c["fam"]})
-    if not tfails:
+    length_fail = []
+    if not tfails and (wf_bad or untranslated or not ok):
+        # the configuration is in doubt: single submits at the limits of the packed length word (hash_drv.c, op V)
+        try:
+            sus = {tuple(w.split("/")) for w in wf_bad} | {(e["algo"], e["fam"]) for e in cfgs() if e.get("error")}
+            length_fail = targeted_lengths(sus)
+        except ImportError:
+            length_fail = []
+        for case, line, ln, why, reason, detail in length_fail[:1]:
+            rep.violation("lane manager %s/%s: a job of fewer than 2^32 bytes comes back with the wrong digest / length: %s" % (case["algo"], case["fam"], detail),
+                          {"level": "context layer over the lane manager (harness/hash_drv.c, one submit out of a 4 GiB virtual mapping of one page)",
+                           "algo": case["algo"], "fam": case["fam"], "mode": "D", "nctx": 1, "ops": case["ops"], "failure": reason, "observed": line[:2000],
+                           "how_to_replay": "./check C15 --replay <this file>"},
+                          sig={"kind": "lane_packed_length", "algo": case["algo"], "family": case["fam"]})
+    if not tfails and not length_fail:
         if diffs:
             i, c, d = diffs[0]
             if c["cfg"].get("error"):
@@ -556,6 +571,251 @@ def lane_whitebox(rep, tier, k=606):
                 "manager structure is compared with the extracted model; families: occupancy 0..lanes each flushed down, lanes-full submits, all-equal lengths (ties), "
                 "zero-length jobs, random" % len(dist)}
     return not (diffs or tfails)
+
+
+# ----------------------------------------------------------------------------- C15: the packed length word at its limits
+#
+# A lens[] word holds (blocks << shift) | lane in W bits: a job of 2^(W-shift) blocks or more loses its top
+# length bits (silently: a shorter run, a wrong digest).  C15_lanes_packed_len_fits (for every cfg_wf
+# configuration) says this cannot happen below 2^32 bytes; here the sizes at that limit are RUN: one submit of
+# exactly that many bytes through hash_drv.c's 4 GiB virtual mapping of one physical page (op V), the digest
+# compared with Python's hashlib.  Started in the background at the beginning of ./check C15, joined at its end.
+
+PAGE_SEED = 0x5eed          # harness/hash_drv.c do_virtual: the page is fill_stream(.., 0x5eed)
+
+
+def pack_limit(e):
+    """bytes at which the block count of a job no longer fits above the shift in this family's lens[] word
+    (None: no packed word - synchronous manager or untranslated)"""
+    e = model_cfg(e) or e
+    if e.get("error") or e["immediate"]:
+        return None
+    return (1 << (e["W"] - e["shift"])) * e["bsize"]
+
+
+def length_points(e, targeted):
+    """[(bytes, why)] for one pair.  Routine: the largest length that still fits and 3/4 of the limit.  Targeted
+    (the configuration is not cfg_wf / not translated, or thorough tier): the first length that does not fit,
+    2^32 - B, the top bit of the uint32 length alone, and one block when the lane bits reach into the length."""
+    B = e["bsize"]
+    top = 1 << 32
+    lim = pack_limit(e)
+    cap = min(lim, top) if lim else top
+    pts = [(cap - B, "largest length whose block count fits the packed lens[] word" if lim and lim <= top else "2^32-B"),
+           (cap * 3 // 4 // B * B, "3/4 of the packed-word limit")]
+    if targeted:
+        pts = []
+        if lim and lim < top:
+            pts.append((lim, "2^(W-shift) = %d blocks: the first length whose packed lens[] word overflows" % (lim // B)))
+        me = model_cfg(e)
+        if me and not me.get("error") and not me["immediate"] and (me["idx_bits"] > me["shift"] or me["nlanes"] > (1 << me["shift"])):
+            pts.append((B, "one block: the lane bits reach into the length bits"))
+        pts += [(top - B, "2^32-B"), (1 << 31, "top bit of the uint32 length set")]
+        if not lim:
+            pts.append((1 << 30, "2^30"))
+    seen, out = set(), []
+    for ln, why in pts:
+        if B <= ln < top and ln % B == 0 and ln not in seen:
+            seen.add(ln)
+            out.append((ln, why))
+    return out
+
+
+def _page():
+    return vlib.SplitMix64(PAGE_SEED).bytes(4096)
+
+
+def ref_digest(algo, ln, off):
+    """hashlib digest of ln bytes read from offset `off` of the endlessly repeated page"""
+    import hashlib as H
+    h = H.new(algo)
+    page = _page()
+    first = min(ln, 4096 - off)
+    h.update(page[off:off + first])
+    rest = ln - first
+    mb = page * 256
+    for _ in range(rest // len(mb)):
+        h.update(mb)
+    r = rest % len(mb)
+    h.update((page * (r // 4096 + 1))[:r])
+    return h.digest()
+
+
+def wf_status():
+    """{(algo, fam): cfg_wf of the regenerated configuration, evaluated by the extracted cfg_wf}"""
+    es = [e for e in cfgs() if e["mgr"]]
+    cases = [{"algo": e["algo"], "fam": e["fam"], "ops": [], "cfg": e} for e in es]
+    ids = ["w%d" % k for k in range(len(cases))]
+    out = run_model(cases, ids)
+    res = {}
+    for i, c in zip(ids, cases):
+        if c["cfg"].get("error"):
+            res[(c["algo"], c["fam"])] = False
+        else:
+            res[(c["algo"], c["fam"])] = " wf=true" in out.get(i, "").split(" | ")[0]
+    return res
+
+
+def length_jobs(pairs_points):
+    """start the native single submits (and their hashlib references) in background threads;
+    pairs_points: [(cfg entry, bytes, why)] -> handle for length_results"""
+    import concurrent.futures as cf, subprocess
+    from checks import hashcommon as hc
+    exe = hc.native_driver()
+    ex = cf.ThreadPoolExecutor(max(1, min(len(pairs_points), max(2, vlib.NCPU // 2))))
+    refs = {}
+    def native(k, e, ln):
+        case = {"algo": e["algo"], "fam": e["fam"], "mode": "D", "nctx": 1, "tmo": 1500, "ops": ["V0,%d,3" % ln], "aim": "packed length limit"}
+        pr = subprocess.run([exe], input=hc.case_line("L%d" % k, case) + "\n", stdout=subprocess.PIPE, stderr=subprocess.PIPE,
+                            text=True, timeout=3000, errors="replace")
+        line = ([l for l in pr.stdout.split("\n") if l.startswith("L%d " % k)] or ["L%d <no-output rc=%d>" % (k, pr.returncode)])[0]
+        m = re.search(r" off=(\d+)", line)
+        off = int(m.group(1)) if m else (-ln) % 4096
+        key = (e["algo"], ln, off)
+        if key not in refs:
+            refs[key] = ex.submit(ref_digest, e["algo"], ln, off)
+        return case, line, key
+    # the reference can start at once: the buffer ends flush against the guard page, so off = -ln mod 4096
+    for e, ln, why in pairs_points:
+        key = (e["algo"], ln, (-ln) % 4096)
+        if key not in refs:
+            refs[key] = ex.submit(ref_digest, *key)
+    futs = [(e, ln, why, ex.submit(native, k, e, ln)) for k, (e, ln, why) in enumerate(pairs_points)]
+    return {"ex": ex, "futs": futs, "refs": refs, "t0": time.time()}
+
+
+def length_results(h):
+    """-> [(case, native line, bytes, why, failure reason or None, detail)]"""
+    from checks import hashcommon as hc
+    res = []
+    for e, ln, why, fu in h["futs"]:
+        case, line, key = fu.result()
+        nat = hc.parse_native(line)
+        r = nat["calls"][0] if nat["calls"] else None
+        lim = pack_limit(e)
+        me = model_cfg(e) or {}
+        about = "%s/%s single submit of %d bytes = %d blocks (%s; lens[] word: W=%s shift=%s)" % (
+            e["algo"], e["fam"], ln, ln // e["bsize"], why, me.get("W", "?"), me.get("shift", "?"))
+        if nat["abort"] or r is None or r["kv"].get("st") != "4":
+            res.append((case, line, ln, why, nat["abort"] or "status", about + ": " + line[:200]))
+            continue
+        if int(r["kv"]["tl"], 16) != ln:
+            res.append((case, line, ln, why, "total:%s!=%x" % (r["kv"]["tl"], ln), about))
+            continue
+        want = h["refs"][key].result()
+        got = hc.digest_bytes_of_words(e["algo"], r["kv"]["dg"])
+        if want != got:
+            res.append((case, line, ln, why, "digest:hashlib=" + want.hex(), about + ": digest %s, hashlib %s" % (got.hex(), want.hex())))
+        else:
+            res.append((case, line, ln, why, None, about))
+    h["ex"].shutdown(wait=True)
+    return res
+
+
+def quick_rotation():
+    """the pair with the tightest packed word, always, and two more by VERIF_SEED rotation"""
+    lanes = [e for e in cfgs() if e["mgr"] and pack_limit(e)]
+    if not lanes:
+        return []
+    lanes.sort(key=lambda e: (pack_limit(e), e["algo"], e["fam"]))
+    pick = [lanes[0]]
+    rest = lanes[1:]
+    for j in range(2):
+        if rest:
+            pick.append(rest.pop((vlib.seed() * 5 + j * 7) % len(rest)))
+    return pick
+
+
+def c15_start(rep, tier):
+    """./check C15, at its beginning: the lane obligations that are C15's, and the single submits at the limits
+    of the packed length word started in the background"""
+    t0 = time.time()
+    ok, broken = coq_step(rep, only=("C06_lanes_every_configuration_wf", "C15_lanes_packed_len_fits"))
+    wf = wf_status()
+    bad = sorted(p for p, v in wf.items() if not v)
+    jobs = []
+    for e in cfgs():
+        if not e["mgr"]:
+            continue
+        p = (e["algo"], e["fam"])
+        if p in bad:
+            jobs += [(e, ln, why) for ln, why in length_points(e, True)]
+        elif tier == "thorough":
+            # (2^32-B on every pair is C15's own part (iii) in the thorough tier)
+            top = (1 << 32) - e["bsize"]
+            pts = length_points(e, False) + length_points(e, True)
+            seen = set()
+            for ln, why in pts:
+                if ln != top and ln not in seen:
+                    seen.add(ln)
+                    jobs.append((e, ln, why))
+    if tier == "quick":
+        for e in quick_rotation():
+            if (e["algo"], e["fam"]) not in bad:
+                jobs += [(e, ln, why) for ln, why in length_points(e, False)]
+    return {"h": length_jobs(jobs) if jobs else None, "ok": ok, "broken": broken, "bad": bad, "njobs": len(jobs),
+            "coq_s": round(time.time() - t0, 1)}
+
+
+def c15_finish(st, rep, failures, timing=None):
+    """./check C15, at its end: join; a wrong digest / total / fault becomes a C15 failure with the case as replay"""
+    from checks import hashcommon as hc
+    t0 = time.time()
+    res = length_results(st["h"]) if st["h"] else []
+    nfail = 0
+    for case, line, ln, why, reason, detail in res:
+        rep.case("lane-length:%s/%s/%d" % (case["algo"], case["fam"], ln), True)
+        rep.cov["hashlib_digests_compared"] = rep.cov.get("hashlib_digests_compared", 0) + 1
+        if reason:
+            nfail += 1
+            failures.append((case, {"prop": "C15", "reason": reason, "call": 0, "detail": detail}, hc.parse_native(line), line, ""))
+    if timing is not None:
+        timing["lane_lengths_wait_s"] = round(time.time() - t0, 1)
+        timing["lane_coq_s"] = st["coq_s"]
+    rep.notes["lane_packed_length"] = {
+        "single_submits": ["%s/%s %d (%s)%s" % (c["algo"], c["fam"], ln, why, " FAILED: " + r if r else "") for c, _, ln, why, r, _ in res],
+        "configurations_not_cfg_wf": ["%s/%s" % p for p in st["bad"]],
+        "rule": "quick: the pair with the tightest packed lens[] word + 2 rotating pairs, one submit of (limit - B) and one of 3/4 limit bytes "
+                "(limit = min(2^(W-shift) * B, 2^32)); every pair whose regenerated configuration is not cfg_wf (and every pair in the thorough tier): "
+                "2^(W-shift) blocks if below 2^32 bytes, 2^32-B, 2^31; digests against hashlib"}
+    if (not st["ok"] or st["bad"]) and not nfail and not rep.violations:
+        rep.violation("lane level: %s; no single submit at the limits of the packed length word fails" % (
+            "regenerated configuration not cfg_wf for %s" % st["bad"] if st["bad"] else "Coq obligation no longer checks: %s" % st["broken"]),
+            {"theorem_or_file": st["broken"] or "Gen/LaneCfgGen.v:gen_lane_cfgs_wf", "correspondence": "%d single submits clean" % len(res)}, no_input=True)
+    return nfail
+
+
+def c15_replay(rep, path, failures):
+    """./check C15 --replay f, for a replay that is one single submit out of the virtual mapping (op V): run it and
+    compare digest and total with hashlib (the model cannot hash gigabytes)"""
+    import json
+    from checks import hashcommon as hc
+    with open(path) as fh:
+        r = json.load(fh)["replay"]
+    ops = r.get("ops", [])
+    m = re.fullmatch(r"V0,(\d+),3", ops[0]) if len(ops) == 1 else None
+    es = [e for e in cfgs() if e["algo"] == r.get("algo") and e["fam"] == r.get("fam")]
+    if not m or not es or r.get("mode", "D") != "D":
+        return 0
+    res = length_results(length_jobs([(es[0], int(m.group(1)), "replay")]))
+    n = 0
+    for case, line, ln, why, reason, detail in res:
+        rep.cov["hashlib_digests_compared"] = rep.cov.get("hashlib_digests_compared", 0) + 1
+        if reason:
+            n += 1
+            failures.append((case, {"prop": "C15", "reason": reason, "call": 0, "detail": detail}, hc.parse_native(line), line, ""))
+    return n
+
+
+def targeted_lengths(pairs):
+    """synchronous targeted search for the lane part of C06: [(case, line, bytes, why, reason, detail)] that fail"""
+    jobs = []
+    for e in cfgs():
+        if e["mgr"] and (e["algo"], e["fam"]) in pairs:
+            jobs += [(e, ln, why) for ln, why in length_points(e, True)]
+    if not jobs:
+        return []
+    return [x for x in length_results(length_jobs(jobs)) if x[4]]
 
 
 def run(tier, replay=None):
